@@ -206,7 +206,7 @@ fn gen_case(seed: u64, idx: u64) -> Case {
                 kinds.insert("new");
                 hs[h] = mk(&e, b);
                 ranges[h].clear();
-                (format!("(ONew {} {} {}, BUnit (Ok tt))", h, e_coq(&e), coq_opt(b.map(|i| i.to_string()))),
+                (format!("(ONew {} {} {}, BUnit (Ok tt))", h, e_coq(&e), coq_opt(b.map(|i| format!("{}%nat", i)))),
                  format!("h{}=new({},{:?})", h, e_coq(&e), b), false)
             }
             Op::SetPerm(h, a, len, p) => {
@@ -235,7 +235,7 @@ fn gen_case(seed: u64, idx: u64) -> Case {
         if was_panic { panicked = true; break; }
     }
     let table = coq_list(built.iter().zip(backs.iter()).map(|(b, s)| back_coq(b, &s.endian)));
-    let coq = format!("KHist {} {} {} {}", e_coq(&endian), table, coq_opt(b0.map(|i| i.to_string())), coq_list(coq_ops.iter().cloned()));
+    let coq = format!("KHist {} {} {} {}", e_coq(&endian), table, coq_opt(b0.map(|i| format!("{}%nat", i))), coq_list(coq_ops.iter().cloned()));
     let mut tags = vec![format!("endian:{}", e_coq(&endian)), format!("backing:{}", has_backing), format!("ops:{}", (coq_ops.len() / 10) * 10)];
     for k in &kinds { tags.push(format!("has:{}", k)); }
     if overlap > 0 { tags.push("has:overlapping-store".into()); }
